@@ -91,6 +91,8 @@ def response_object_problems(v: Any) -> List[str]:
         i = v['id']
         if not (i is None or isinstance(i, str) or (isinstance(i, (int, float)) and not isinstance(i, bool))):
             p.append('id-bad-type')
+        elif isinstance(i, float) and (i != i or i in (float('inf'), float('-inf'))):
+            p.append('id-not-a-json-number')      # NaN / Infinity are not JSON numbers
     has_r, has_e = 'result' in v, 'error' in v
     if has_r == has_e:
         p.append('result-error-not-exactly-one')
